@@ -241,7 +241,7 @@ pub fn fam_stale_timing(b: &Base, depth: i64, out: &mut Vec<CaseSpec>) {
                         continue;
                     }
                     out.push(with(b, "staletime", format!("burst{burst}:ack-{d}@{on}{}", if suppress { ":suppress" } else { "" }), |s| {
-                        s.rules.push(Rule::InjectAfterBurst { burst, offset: off, stray: Stray::AckRel(-d), suppress })
+                        s.rules.push(Rule::InjectAfterBurst { burst, offset: off, stray: Stray::AckRel(-d), suppress, suppress_for: 0 })
                     }));
                 }
             }
@@ -313,5 +313,27 @@ pub fn set_repeat(cases: &mut [CaseSpec], repeat: u8) {
     for c in cases.iter_mut() {
         c.repeat = repeat;
         c.label = format!("{}:N{}", c.label, repeat - 1);
+    }
+}
+
+/// two duplicate/stale ACKs around a timeout-driven retransmission: the first arrives `o1` after burst b while the
+/// client's own ACKs are lost, the worker retransmits when its receive times out (off the T grid), the second
+/// arrives `o2` after that retransmission (sender role)
+pub fn fam_stale_pairs(b: &Base, out: &mut Vec<CaseSpec>) {
+    let o1s: [(u64, &str); 4] = [(T / 5, "0.2T"), (T / 2, "0.5T"), (T * 4 / 5, "0.8T"), (T - 1, "T-1ns")];
+    let o2s: [(u64, &str); 5] = [(1000, "eps"), (T / 10, "0.1T"), (T * 3 / 10, "0.3T"), (T / 2, "0.5T"), (T * 9 / 10, "0.9T")];
+    for burst in 0..b.n_bursts {
+        for d in 0..=1i64 {
+            for (o1, n1) in o1s {
+                for (o2, n2) in o2s {
+                    out.push(with(b, "stalepair", format!("burst{burst}:ack-{d}@{n1}+retx:ack-{d}@{n2}"), |s| {
+                        s.rules.push(Rule::InjectAfterBurst { burst, offset: o1, stray: Stray::AckRel(-d), suppress: true, suppress_for: 3 * T });
+                        s.rules.push(Rule::InjectAfterBurst { burst: burst + 1, offset: o2, stray: Stray::AckRel(-d), suppress: false, suppress_for: 0 });
+                        // a third one after the second retransmission
+                        s.rules.push(Rule::InjectAfterBurst { burst: burst + 2, offset: o2, stray: Stray::AckRel(-d), suppress: false, suppress_for: 0 });
+                    }));
+                }
+            }
+        }
     }
 }
